@@ -89,7 +89,7 @@ def _plain(x) -> bool:
 
 def section_text(ctx) -> None:
     rng = ctx.rng
-    n = ctx.scale(150, 6000)
+    n = ctx.scale(150, 4000)
     pc, keep_p, rc, keep_r = [], [], [], []
     texts = []
     for _ in range(n):
@@ -224,12 +224,15 @@ def fixed_histories() -> list:
          ('expunge',), A([], ('', 4)), ('check',), ('unsubscribe', ['foo'])],
         [('create', ['foo']), A(['foo'], ('', 1)), A(['foo'], ('', 2)), ('select', ['foo']),
          ('move', [1, 2], []), ('close',), ('select', []), ('store', [1], '=', 'DR')],
+        # records dropped by CHECK, then new messages: no uid may come back
+        [A([], ('', 1), ('', 2), ('', 3)), ('select', []), ('store', [1, 2], '+', 'T'),
+         ('expunge',), ('check',), A([], ('', 4)), A([], ('F', 5)), ('check',)],
     ]
 
 
 def section_histories(ctx) -> list:
     rng = ctx.rng
-    n = ctx.scale(6, 150)
+    n = ctx.scale(6, 100)
     jobs = []
     for i, h in enumerate(fixed_histories()):
         jobs.append({'layout': '++', 'history': h})
@@ -291,7 +294,7 @@ def section_crashes(ctx) -> None:
     for i, h in enumerate(fixed):
         jobs.append({'layout': '++' if i % 2 == 0 else 'fs', 'history': h})
     jobs.append({'layout': '++', 'history': fixed[0], 'crossfs': True})
-    for i in range(ctx.scale(4, 150)):
+    for i in range(ctx.scale(4, 60)):
         jobs.append({'layout': rng.choice(['++', 'fs']),
                      'history': MM.gen_history(rng, rng.randint(3, 6),
                                                weights={'noop': 0, 'examine': 0}),
